@@ -139,7 +139,7 @@ theorem progress_measure (c : Cfg) (s s' : St) (d t : Nat) (op : Op)
       · rename_i hg
         simp only [Bool.and_eq_true, decide_eq_true_eq, beq_iff_eq] at hg
         cases h
-        have hph : s.ph d = .waitTarget := hg.1.1.1.2
+        have hph : s.ph d = .waitTarget := hg.1.1.1.1.2
         simp only [devMeasure, St.cu, St.ph, getD_setAt, hl, and_true, if_true] at hcu hph ⊢
         simp only [hcu, hph]
         have hf' : s.failed[d]?.getD false = false := by simpa using hf
